@@ -18,6 +18,8 @@ import (
 	"sync/atomic"
 	"time"
 
+	"github.com/getkin/kin-openapi/verifhook"
+
 	"verifmc/explore"
 )
 
@@ -191,7 +193,7 @@ func (r *Run) Guard(x *explore.X, what string, detail map[string]any, f func()) 
 			if d, isDiv := p.(explore.Diverged); isDiv {
 				panic(d)
 			}
-			if _, isStep := p.(StepBudgetExceeded); isStep {
+			if _, isStep := p.(verifhook.StepBudgetExceeded); isStep {
 				site := "step-budget:" + what
 				d2 := cloneDetail(detail)
 				d2["what"] = what
@@ -213,8 +215,19 @@ func (r *Run) Guard(x *explore.X, what string, detail map[string]any, f func()) 
 	return true
 }
 
-// StepBudgetExceeded is the sentinel panic of the instrumented step counter.
-type StepBudgetExceeded struct{ Steps int64 }
+// StepBudget is the default number of instrumented steps one execution may take.
+const StepBudget = 2_000_000
+
+// Exec resets the instrumentation seams (step counter, map order policy) for one execution.
+func (r *Run) Exec(order int) {
+	if verifhook.Steps > r.maxima["max_steps_observed"] {
+		r.maxima["max_steps_observed"] = verifhook.Steps
+	}
+	verifhook.Reset(StepBudget, order)
+}
+
+// Steps returns the instrumented steps taken since the last Exec.
+func (r *Run) Steps() int64 { return verifhook.Steps }
 
 func cloneDetail(d map[string]any) map[string]any {
 	out := map[string]any{}
